@@ -116,7 +116,10 @@ def space(tier):
         p1, _ = G.paths(1)
         p2, skipped = G.paths(2, exact=True)
         sub = [e for e in EFFECTS if e[0] in QUICK_DEPTH2]
-        return [(p, EFFECTS) for p in p1] + [(p, sub) for p in p2], skipped, "depth 1 x 7 effects, depth 2 x 2 effects (call of a named procedure, read of a mutable variable)"
+        # depth 2 only inside a function (where the rejection is demanded) and only for the call of a named procedure:
+        # one compile costs ~0.4 CPU-s with the class prelude, the quick tier is sized for about a minute
+        sub = [e for e in EFFECTS if e[0] == "proc-call"]
+        return [(p, EFFECTS) for p in p1] + [(p, sub, ("func",)) for p in p2], skipped, "depth 1 x 7 effects x 3 enclosing blocks, depth 2 x the procedure-call effect inside a function; (superseded text:) depth 2 x 2 effects (call of a named procedure, read of a mutable variable)"
     p2, _ = G.paths(2)
     p3, skipped = G.paths(3, exact=True)
     sub = [e for e in EFFECTS if e[0] in THOROUGH_DEPTH3]
@@ -137,11 +140,12 @@ def run(chk):
     for lo in range(0, len(ctxs), SLAB):
         slab = ctxs[lo:lo + SLAB]
         # phase 1: the pure twin of every (context, enclosing block)
-        twins = [{"id": f"t{lo + ci}_{enc}", "src": prog(path, PURE_HOLE, enc), "mode": "check"} for ci, (path, _) in enumerate(slab) for enc in G.ENCLOSINGS]
+        slab = [(c[0], c[1], c[2] if len(c) > 2 else G.ENCLOSINGS) for c in slab]
+        twins = [{"id": f"t{lo + ci}_{enc}", "src": prog(path, PURE_HOLE, enc), "mode": "check"} for ci, (path, _, encs) in enumerate(slab) for enc in encs]
         tres, r1 = G.compile_robust(twins, "c22t")
         items, cases = [], []
-        for ci, (path, effs) in enumerate(slab):
-            for enc in G.ENCLOSINGS:
+        for ci, (path, effs, encs) in enumerate(slab):
+            for enc in encs:
                 total += len(effs)
                 t = tres.get(f"t{lo + ci}_{enc}")
                 if t is None:
